@@ -21,6 +21,14 @@ VERIF = os.path.dirname(os.path.dirname(os.path.abspath(__file__)))
 REPO = os.environ.get("PYVC_REPO", "/repo")
 
 
+# Queries that end in a proof are never cut short.  Time spent in queries that do NOT (refuted / unknown) is capped per unit:
+# on a broken tree a unit with dozens of hard non-theorems would otherwise run for hours.  Obligations skipped this way are
+# reported as undecided - never as proved, never as violations.
+UNIT_HARD_BUDGET_S = float(os.environ.get("PYVC_UNIT_HARD_BUDGET_S", "120"))
+PROP_HARD_BUDGET_S = float(os.environ.get("PYVC_PROP_HARD_BUDGET_S", "1200"))    # summed over all worker processes
+SHARED_HARD = None     # multiprocessing.Value shared by the workers of one property run (set by the CLI before forking)
+
+
 def load_sidecar(prop):
     """Import contracts/<prop>.py natively (registers contracts) and return its registry."""
     api.CONTRACTS.clear()
@@ -138,6 +146,7 @@ class UnitRunner:
         self.obligations: dict[str, dict] = {}
         self.paths = 0
         self.paths_after_requires = 0
+        self.hard_time = 0.0        # solver time of this unit's queries that were refuted or left unknown
         self.cover_hits: dict[str, bool] = {}
         self.assumptions: set[str] = set()
 
@@ -162,7 +171,21 @@ class UnitRunner:
                 claim = z3.BoolVal(False)
             else:
                 claim = t
+            spent_all = SHARED_HARD.value if SHARED_HARD is not None else 0.0
+            exhausted = self.hard_time > UNIT_HARD_BUDGET_S or spent_all > PROP_HARD_BUDGET_S
+            if exhausted and rec["status"] != "proved":
+                return      # this obligation is already refuted/undecided and the budget for hard queries is spent
+            if exhausted:
+                rec["status"] = "unknown"
+                rec["solver_output"] = (f"not attempted: {self.hard_time:.0f}s (unit) / {spent_all:.0f}s (property) already spent in "
+                                        f"queries that did not end in a proof (budgets {UNIT_HARD_BUDGET_S}s / {PROP_HARD_BUDGET_S}s)")
+                return
             res = solver.discharge(ip.path.pc, claim, want_cvc5_recheck=self.thorough)
+            if res["status"] != "proved":
+                self.hard_time += res["time_s"]
+                if SHARED_HARD is not None:
+                    with SHARED_HARD.get_lock():
+                        SHARED_HARD.value += res["time_s"]
             rec["time_s"] += res["time_s"]
             rec["backends"][res["backend"]] = rec["backends"].get(res["backend"], 0) + 1
             if res["status"] == "proved":
